@@ -1185,6 +1185,28 @@ class AccessorEval:
             return
         if isinstance(st, ast.With):
             exits = []
+            # `with contextlib.redirect_stdout(<model file>):` -- print() without a file goes to that file for the body
+            # (that this touches the process-wide sys.stdout is C16's clause, decided there from the call itself)
+            if len(st.items) == 1 and isinstance(st.items[0].context_expr, ast.Call) and len(st.items[0].context_expr.args) == 1 and not st.items[0].context_expr.keywords:
+                ce_ = st.items[0].context_expr
+                mod_ = getattr(self, "module", None) or (self.cls.module if self.cls else None)
+                r_ = self.prog.resolve_expr(None, mod_, ce_.func) if mod_ is not None else None
+                if r_ is not None and r_[0] == "external" and r_[1] == "contextlib.redirect_stdout":
+                    target = self._eval(ce_.args[0], local)
+                    if not isinstance(target, TextSink):
+                        raise NotSymbolic("redirect_stdout to something that is not a model output file")
+                    saved_out = self.__dict__.get("stdout")
+                    self.stdout = target
+                    if st.items[0].optional_vars is not None:
+                        self._assign(st.items[0].optional_vars, target, local)
+                    try:
+                        self._block(st.body, local)
+                    finally:
+                        if saved_out is None:
+                            self.__dict__.pop("stdout", None)
+                        else:
+                            self.stdout = saved_out
+                    return
             for item in st.items:
                 cm = self._eval(item.context_expr, local)
                 entered = cm
